@@ -101,11 +101,22 @@ class Tokens:
         self.by_key = {}
         self.table = {}      # token -> RatFn
 
+    dot = False     # spell 0.5 as .5 and -0.5 as -.5 (both are MCNP numerals)
+
+    def _dec(self, c):
+        t = dec(c)
+        if self.dot:
+            if t.startswith('0.'):
+                t = t[1:]
+            elif t.startswith('-0.'):
+                t = '-' + t[2:]
+        return t
+
     def tok(self, x):
         if isinstance(x, RatFn):
             c = x.as_const()
             if c is not None:
-                return dec(c)
+                return self._dec(c)
             k = x.key()
             if k not in self.by_key:
                 t = '%d.5' % (90001 + len(self.by_key))
@@ -114,7 +125,7 @@ class Tokens:
             return self.by_key[k]
         if isinstance(x, str):
             return x
-        return dec(Fraction(x))
+        return self._dec(Fraction(x))
 
 
 def expr_text(e, top=True):
@@ -196,6 +207,8 @@ def cell_opts(deck, c, tk, src=None):
 
 def unparse(deck, tk=None):
     tk = tk or Tokens()
+    if getattr(deck, 'dot_spelling', False):
+        tk.dot = True
     L = [deck.title]
     for c in deck.cells:
         if c.like is not None:
@@ -437,6 +450,20 @@ class Reference:
                 raise ref.RefError('a lattice unit cell must be an intersection of half-spaces')
         for leaf in leaves(lc.expr):
             s = self.deck.surf(abs(leaf[1]))
+            if not s.tr and s.mn == 'RPP':
+                # facets of a box: .1/.2 = x max/min, .3/.4 = y, .5/.6 = z, normals outwards; the whole body
+                # stands for its six facets in that order
+                p = [n.N(v) for v in s.params]
+                fac = []
+                for ax in range(3):
+                    e_ = [Fraction(1) if i == ax else Fraction(0) for i in range(3)]
+                    fac.append((e_, p[2 * ax + 1]))
+                    fac.append(([-x for x in e_], n.neg(p[2 * ax])))
+                if len(leaf) > 2 and leaf[2]:
+                    planes.append(fac[leaf[2] - 1])
+                else:
+                    planes.extend(fac)
+                continue
             if s.tr or s.mn not in ('PX', 'PY', 'PZ', 'P'):
                 raise ref.RefError('lattice reference: planes without TR only')
             p = [n.N(v) for v in s.params]
@@ -641,6 +668,7 @@ def to_json(deck, env):
         'mats': {str(k): v for k, v in deck.mats.items()},
         'imp_ref': {k: [_num_json(v, env) for v in vals] for k, vals in getattr(deck, 'imp_ref', {}).items()},
         'lattice_opt': deck.lattice_opt,
+        'dot_spelling': bool(getattr(deck, 'dot_spelling', False)),
         'c10': [{'mat': i['mat'], 'entries': [[z, _num_json(f, env), sn] for z, f, sn in i['entries']], 'mixed': i['mixed'],
                  'kwpos': i['kwpos'], 'rho': _num_json(i['rho'], env), 'rho_neg': i['rho_neg']} for i in getattr(deck, 'c10', [])],
     }
@@ -696,6 +724,7 @@ def from_json(j):
     d.imp_ref = {k: [_fr(v) for v in vals] for k, vals in j.get('imp_ref', {}).items()}
     d.mats = {int(k): [tuple(x) for x in v] for k, v in j.get('mats', {}).items()}
     d.lattice_opt = j.get('lattice_opt', [])
+    d.dot_spelling = bool(j.get('dot_spelling', False))
     if j.get('c10'):
         d.c10 = [{'mat': i['mat'], 'entries': [(z, _fr(f), sn) for z, f, sn in i['entries']], 'mixed': i['mixed'], 'kwpos': i['kwpos'],
                   'rho': _fr(i['rho']), 'rho_neg': i['rho_neg']} for i in j['c10']]
